@@ -21,7 +21,10 @@ From PV Require Import Genesis.RoundTrip Genesis.Indexed Genesis.ExchangeGenesis
                        Genesis.MetadataGenesis Genesis.FullProduct Genesis.QuarantineAccept
                        Proofs.RoundTripProofs Proofs.TableLemmas Proofs.ExchangeGenesisProofs
                        Proofs.MarkerGenesisProofs Proofs.MetadataGenesisProofs Proofs.FullProductProofs
-                       Proofs.QuarantineAcceptProofs Proofs.FullWitness.
+                       Proofs.QuarantineAcceptProofs Proofs.FullWitness
+                       Genesis.MarkerLifecycle Genesis.NameParams Genesis.ProcessHistory
+                       Proofs.MarkerLifecycleProofs Proofs.NameParamsProofs Proofs.ProcessHistoryProofs
+                       Gen.GenStorePrefixes Genesis.StorePrefixDoc Proofs.StorePrefixProofs.
 Open Scope Z_scope.
 
 (** Every history of raw store writes and deletes leaves a strictly key-sorted table: the
@@ -232,6 +235,124 @@ Theorem C18_quarantine_accepted_senders_reachable_refuted :
     qs_recs (quar_accept hash w_T [w_B] (quar_decline hash w_T [w_A] s')) = [].
 Proof. exact quar_reachable_divergence. Qed.
 Print Assumptions C18_quarantine_accepted_senders_reachable_refuted.
+
+(** ---------- markers in every status reached by every route ---------- *)
+
+(** For EVERY history of finalize / activate / cancel / delete calls, by any callers, on a marker
+    that MsgAddMarker created (PROPOSED or FINALIZED, manager set): the stored account stays valid,
+    keeps its access list, has NO manager when ACTIVE, has the manager it was created with when
+    PROPOSED or FINALIZED, and in the remaining statuses (CANCELLED, DESTROYED) has either that
+    manager (cancelled before it ever was active) or none (cancelled after it was active). *)
+Theorem C18_marker_manager_by_status : forall m0 ops,
+  lm_init_ok m0 ->
+  let m := lm_run ops m0 in
+  lm_valid m = true /\ lm_access m = lm_access m0 /\
+  (lm_status m = st_active -> lm_manager m = []) /\
+  (lm_status m = st_proposed \/ lm_status m = st_finalized -> lm_manager m = lm_manager m0) /\
+  (lm_manager m = [] \/ lm_manager m = lm_manager m0).
+Proof. exact lifecycle_manager_by_status. Qed.
+Print Assumptions C18_marker_manager_by_status.
+
+(** The genesis round trip keeps, for the marker account at every address and in EVERY status,
+    the status, the MANAGER and the access list - hence DeleteMarker decides alike about every
+    caller on the exporting and on the re-initialised chain. *)
+Theorem C18_marker_roundtrip_keeps_manager : forall mv nv other next s g,
+  marker_wf mv nv s -> marker_export s = Some g ->
+  (forall k m, In (k, m) (mks_accounts s) -> other (mr_addr m) = Some (mr_accnum m)) ->
+  exists s', marker_import mv nv [] other next g = Some s' /\
+    forall a m, tget (k_account a) (mks_accounts s) = Some m ->
+      exists m', tget (k_account a) (mks_accounts s') = Some m' /\
+        mr_status m' = mr_status m /\ mr_manager m' = mr_manager m /\ mr_access m' = mr_access m /\
+        forall c, delete_allowed (lm_of m') c = delete_allowed (lm_of m) c.
+Proof. exact marker_roundtrip_keeps_manager. Qed.
+Print Assumptions C18_marker_roundtrip_keeps_manager.
+
+(** The manager cannot be derived from the status at export time: writing the export through the
+    constructor NewMarkerAccount (which clears the manager when status >= ACTIVE, and CANCELLED,
+    DESTROYED sort above ACTIVE) loses, for a reachable marker, the manager whose MsgDelete the
+    exporting chain accepts; on the statuses the usual flows leave behind the two forms agree,
+    which is why only histories with markers cancelled before activation tell them apart. *)
+Theorem C18_marker_constructor_export_drops_manager :
+  exists m0 ops c, lm_init_ok m0 /\
+    delete_allowed (lm_run ops m0) c = true /\ delete_allowed (lm_ctor (lm_run ops m0)) c = false.
+Proof. exact ctor_export_drops_manager. Qed.
+Print Assumptions C18_marker_constructor_export_drops_manager.
+
+Theorem C18_marker_constructor_export_agrees_on_usual_flows : forall m0 ops,
+  lm_init_ok m0 ->
+  let m := lm_run ops m0 in
+  lm_status m = st_proposed \/ lm_status m = st_finalized \/ lm_status m = st_active -> lm_ctor m = m.
+Proof. exact ctor_export_agrees_on_usual_flows. Qed.
+Print Assumptions C18_marker_constructor_export_agrees_on_usual_flows.
+
+(** Non-vacuity: the ten routes the harness drives end in every status, with and without manager. *)
+Example C18_marker_routes_reach_every_status :
+  map (fun ops => let m := lm_run ops (lm_sample []) in (lm_status m, negb (is_nil (lm_manager m)))) lm_routes =
+  [ (1, true); (2, true); (3, false); (4, true); (4, true); (4, false); (5, true); (5, true); (5, false);
+    (4, false) ]%N.
+Proof. exact lm_routes_outcomes. Qed.
+
+(** ---------- names: parameter changes under existing names ---------- *)
+
+(** Every name store reached from a well-formed one by binding names and by parameter changes
+    that only LOOSEN the segment-length / level limits is rebuilt exactly from its own export. *)
+Theorem C18_name_roundtrip_under_loosening : forall name_key addr_valid s0 ops,
+  name_wf name_key norm_len addr_valid s0 -> loosening (ns_params s0) ops ->
+  let s := nrun name_key addr_valid ops s0 in
+  name_import name_key norm_len addr_valid (name_export s) = Some s.
+Proof. exact name_roundtrip_under_loosening. Qed.
+Print Assumptions C18_name_roundtrip_under_loosening.
+
+(** REFUTED without that restriction (findings/C18.md, reproduced on the real application):
+    bind "n1" under the default limits, raise the minimum segment length to 3 by governance: the
+    reachable state's export is rejected by InitGenesis. *)
+Theorem C18_name_params_tightened_export_rejected_refuted :
+  let s0 := {| ns_params := np_default; ns_records := [] |} in
+  let s := nrun (fun k => k) (fun _ => true) tighten_ops s0 in
+  name_wf (fun k => k) norm_len (fun _ => true) s0 /\
+  ns_records s <> [] /\
+  name_import (fun k => k) norm_len (fun _ => true) (name_export s) = None.
+Proof. exact name_params_tightened_export_rejected. Qed.
+Print Assumptions C18_name_params_tightened_export_rejected_refuted.
+
+(** ---------- every store prefix is exported, rebuilt by InitGenesis, or listed with a reason ---------- *)
+
+(** Translator obligation: the store prefixes the ten custom modules declare, and whether their
+    ExportGenesis / InitGenesis reach them, as regenerated from the Go source on this run, are
+    exactly the reviewed table (58 prefixes: 39 carried by the genesis, 17 rebuilt by InitGenesis
+    from the exported records, 2 legacy prefixes that nothing writes); every module has both
+    genesis functions. *)
+Theorem C18_store_prefixes_reviewed :
+  prefix_audit gen_store_prefixes reviewed_store_prefixes = [] /\
+  genesis_functions_audit gen_genesis_functions = [].
+Proof. exact store_prefixes_reviewed. Qed.
+Print Assumptions C18_store_prefixes_reviewed.
+
+(** ---------- what the shadow-node comparison decides (model; the real node is validated) ---------- *)
+
+(** A node whose block execution does not depend on the process memory gives, for the same blocks,
+    the same results and the same committed state whatever side traffic (CheckTx, Simulate, queries,
+    rolled-back branches, on whatever visible state) the process saw and wherever it was restarted. *)
+Theorem C18_oblivious_node_replay_independent :
+  forall (S C B T O : Type) (exec : S -> C -> B -> S * C * O) (side : S -> C -> T -> C) (fresh : C),
+    oblivious S C B O exec ->
+    forall (sched : list (traffic S T * B)) (restarts : list bool) s c1 c2,
+      length restarts = length sched ->
+      primary S C B T O exec side s c1 sched =
+      shadow S C B O exec fresh s c2 (combine restarts (map snd sched)).
+Proof. exact oblivious_primary_eq_shadow. Qed.
+Print Assumptions C18_oblivious_node_replay_independent.
+
+(** The shape of defect the comparison exists for (an in-memory compiled regex, reset by SetParams,
+    filled lazily by whichever context validates first) is separated by a two-block schedule with
+    ONE item of side traffic on the mempool state: same blocks, different results. *)
+Theorem C18_cached_regex_depends_on_process_history :
+  exists (sched : list (traffic N unit * rblock)) (restarts : list bool),
+    length restarts = length sched /\
+    fst (primary N (option N) rblock unit bool regex_exec regex_side 0%N None sched) <>
+    fst (shadow N (option N) rblock bool regex_exec None 0%N None (combine restarts (map snd sched))).
+Proof. exact regex_cache_depends_on_process_history. Qed.
+Print Assumptions C18_cached_regex_depends_on_process_history.
 
 (** Non-vacuity: a concrete product state with entries in every table of all ten modules
     (orders with and without external id, a payment with a target, a marker with deny entry and
